@@ -178,6 +178,33 @@ def tlaps_check(module, timeout=900):
     raise ToolError("tlapm failed on %s: %s" % (module, p.stdout[-500:]))
 
 
+def apalache_inductive(module, cinit="ConstInit", init="Init", indinit="IndInit", inv="IndInv", goal=None, timeout=900):
+    """Discharges an inductive invariant with Apalache: Init => Inv (length 0), Inv /\\ Next => Inv' (length 1 from IndInit),
+    and optionally Inv => goal."""
+    d = os.path.join(SPEC, "apalache")
+    out_dir = os.path.join(WORK, "apalache-%d" % os.getpid())
+    steps = [("base", ["--init=" + init, "--inv=" + inv, "--length=0"]), ("step", ["--init=" + indinit, "--inv=" + inv, "--length=1"])]
+    if goal:
+        steps.append(("goal", ["--init=" + indinit, "--inv=" + goal, "--length=0"]))
+    t = time.time()
+    res = {}
+    for name, args in steps:
+        try:
+            p = subprocess.run(["apalache-mc", "check", "--cinit=" + cinit, "--out-dir=" + out_dir] + args + [module + ".tla"], cwd=d,
+                               stdout=subprocess.PIPE, stderr=subprocess.STDOUT, text=True, timeout=timeout)
+        except subprocess.TimeoutExpired:
+            raise ToolError("apalache timed out on %s (%s)" % (module, name))
+        ok = "The outcome is: NoError" in p.stdout
+        res[name] = ok
+        if not ok:
+            shutil.rmtree(out_dir, ignore_errors=True)
+            raise ToolError("apalache: %s of %s failed: %s" % (name, module, p.stdout[-400:]))
+    shutil.rmtree(out_dir, ignore_errors=True)
+    res["wall_s"] = round(time.time() - t, 1)
+    log("[apalache] %s: inductive invariant %s discharged (%s), %.1fs" % (module, inv, ", ".join(k for k in res if k != "wall_s"), time.time() - t))
+    return res
+
+
 def ensure_layout():
     """The TLC-evaluated layout (independent of /repo): cached by the hash of the spec modules."""
     files = ["SlpVersion.tla", "SlpLayout.tla", "mc/MC_Layout.tla"]
